@@ -266,6 +266,7 @@ class Run:
         self.orders = []       # real orders by creation index
         self.trades = {}       # tkey -> Trade
         self.trade_order = []
+        self.replaced = {}       # id(replacement order) -> the order it replaces (noted when the framework creates the replacement)
         self.events = []
         self.lines = {}        # (market id str, pt) -> line
         self.out = []          # list of ((mid, pt), line)
@@ -393,6 +394,12 @@ class Run:
                     t = Trade(market.market_id, sel, hc, strategy, place_reset_seconds=prs, reset_seconds=rs)
                     t._vidx = tkey
                     self.trades[tkey] = t
+
+                    def noting(order, *args, _orig=t.create_order_replacement, _run=self, **kw):
+                        r = _orig(order, *args, **kw)
+                        _run.replaced[id(r)] = order
+                        return r
+                    t.create_order_replacement = noting
                     self.trade_order.append(t)
                 t = self.trades.get(tkey)
                 if t is None:
@@ -602,6 +609,9 @@ class Run:
                         return
                     run.events.append("closed/%d/%d/%d" % (self.sidx, market_num(market.market_id), market_book.publish_time_epoch))
                     run.clock_probe("closed", market_book.publish_time_epoch, closed=market.date_time_closed if market.closed else None)
+                    h = run.hooks.get("in_closed")
+                    if h:
+                        h(run, self, market, market_book)
 
             from flumine.markets.middleware import Middleware
 
